@@ -346,8 +346,15 @@ impl SliceRange {
         if self.step > 0 {
             IndexRange::new(resolved.start, resolved.end as isize, self.step)
         } else {
+            // Index of the first selected element. This is -1 if the range
+            // starts before the first element of the dimension (or the
+            // dimension is empty), in which case the range selects nothing.
+            let start = dim_size as isize - 1 - resolved.start as isize;
+            if start < 0 {
+                return IndexRange::new(0, 0, self.step);
+            }
             IndexRange::new(
-                dim_size - 1 - resolved.start,
+                start as usize,
                 dim_size as isize - 1 - resolved.end as isize,
                 self.step,
             )
